@@ -15,6 +15,11 @@ type c12Case struct {
 	Specs []*core.StructSpec `json:"specs"` // the same schema in several spellings
 	V     *core.SVal         `json:"v"`
 	Msg   []byte             `json:"msg"`
+	// Pre: definitions outside the supported language on which a call is made (and rejected) before
+	// spelling PreAt[i] is first used: the schema of a type is what its own tags say, whatever the
+	// tag parser was given just before
+	Pre   []c13Case `json:"pre,omitempty"`
+	PreAt []int     `json:"pre_at,omitempty"`
 }
 
 // respell clones the spec with new spellings, another declaration order and other
@@ -83,6 +88,14 @@ func genC12(t *rapid.T) c12Case {
 	c.V = core.GenStructVal(t, core.GenCfg{MaxBytes: 2048, ContainerMax: 6, HolderBytes: true}, base)
 	v2 := core.GenStructVal(t, core.GenCfg{MaxBytes: 2048, ContainerMax: 6}, base)
 	c.Msg, _ = genWireMsg(t, base, v2, wireEditCfg{Shuffle: true, Insert: true, Drop: true, MaxInsert: 2})
+	if rapid.IntRange(0, 2).Draw(t, "pre") == 0 {
+		for i := rapid.IntRange(1, 3).Draw(t, "npre"); i > 0; i-- {
+			ic := c13Case{Salt: rapid.IntRange(0, 1<<20).Draw(t, "isalt"), Pos: rapid.IntRange(0, 2).Draw(t, "ipos")}
+			ic.Class = c13Classes[(rapid.IntRange(0, len(c13Classes)-1).Draw(t, "iclass")+ic.Salt)%len(c13Classes)].Name
+			c.Pre = append(c.Pre, ic)
+			c.PreAt = append(c.PreAt, rapid.IntRange(0, k-1).Draw(t, "preat"))
+		}
+	}
 	return c
 }
 
@@ -194,6 +207,9 @@ func runC12(w *worker) func(c c12Case) *Failure {
 			}
 		})
 		_, _, _, labels := typeShape(base)
+		if len(c.Pre) > 0 {
+			labels = append(labels, "after-rejected-definition")
+		}
 		w.count(dims >= 2 && nested, base.Sig()+string(firstOut), c, labels...)
 		return nil
 	}
